@@ -18,7 +18,7 @@ def correspondence(ctx):
     lines = []
     n = 800 if ctx.quick() else 12000
     for i in range(n):
-        variant = ["hist", "poison", "static", "align", "outcap", "histnr", "poison", "outcapE"][i % 8]
+        variant = ["hist", "poison", "static", "align", "outcap", "histnr", "poison", "outcapE", "histso", "hist", "static", "histso", "outcap", "histnr", "poison", "outcapE"][i % 16]
         p = frames.param_vector(rng, True, allow_fmt=False)
         p.pop(400, None)
         size = rng.choice([1000, 40000, 150000, 300000, 700000])
@@ -32,6 +32,12 @@ def correspondence(ctx):
         if variant.startswith("outcap") and rng.random() < 0.7:
             ins = ",".join(str(rng.choice([1, 700, 5000, 65536, 131072])) for _ in range(rng.randint(1, 3)))       # input in several calls: no one-shot shortcut
         dirs = "".join(rng.choice("cccfe") for _ in range(rng.randint(1, 4)))
+        if variant == "outcap" and i % 16 == 12:
+            # worker threads: job cuts (incl. rsyncable cut points) may not depend on how much output room each call offers
+            p = {100: rng.choice([1, 3]), 400: rng.choice([1, 2, 3]), 401: 524288, 500: rng.choice([0, 1, 1])}
+            if rng.random() < 0.5: p[402] = rng.randint(0, 9)
+            size = rng.choice([5000000, 12000000, 24000000])
+            ins = rng.choice(["65536", "65536", "1000000", "300000,70000"])
         lines.append("det %s %s %d %d %s %s %d %d" % (variant, frames.pstr(p), size, rng.randrange(1 << 30), ins, dirs, dsz, rng.randrange(1 << 30)))
     # worker-count independence (LDM on and off), jobs smaller than the input
     for i in range(14 if ctx.quick() else 200):
